@@ -471,15 +471,17 @@ def decide(prop, tier, seed, args):
     if bounded is not None:
         ev["coverage"]["bounded"] = bounded
     ev["wall_s"] = round(time.time() - t0, 2)
-    write_json(os.path.join(VERIF, "evidence", f"{prop}.json"), ev)
+    if not os.environ.get("VERIF_NO_EVIDENCE"):
+        write_json(os.path.join(VERIF, "evidence", f"{prop}.json"), ev)
 
     # ---- verdict
     for (r, o, k) in knowns:
         print(f"KNOWN-FINDING: property={prop} obligation={o['id']} {k['what']}")
     if violations:
-        os.makedirs(os.path.join(VERIF, "replays"), exist_ok=True)
+        rdir = os.path.join(VERIF, "replays") if not os.environ.get("VERIF_NO_EVIDENCE") else os.path.join(E.BUILD, "selftest-replays")
+        os.makedirs(rdir, exist_ok=True)
         rid = E.sha256("".join(o["id"] for (_, o) in violations) + "".join(r.get("gen_sha", "") for (r, _) in violations))[:12]
-        rp = os.path.join(VERIF, "replays", f"{prop}-{rid}.json")
+        rp = os.path.join(rdir, f"{prop}-{rid}.json")
         has_w = bool(witness and witness.get("witness"))
         write_json(rp, {
             "property": prop,
